@@ -386,6 +386,12 @@ def int_result_traits(rng, tier):
         Method("ia_yes", "ref", ["u32"], None, int_ret="ir_u64_io_alias"),
         Method("ia_no", "ref", ["u32"], "res", attrs=["no_int_result"]),
     ], int_result="AliasRes"))
+    # under #[int_result(Alias)] only returns spelled with the alias are integer-coded: a plain Result keeps its full error value
+    ts.append(Trait("IrAliasPlain", [
+        Method("iap_alias", "ref", ["u64"], None, int_ret="ir_u64_io_alias"),
+        Method("iap_plain", "ref", ["u64"], None, int_ret="plain_io"),
+        Method("iap_plain_unit", "mut", ["u64"], None, int_ret="plain_io_unit"),
+    ], int_result="AliasRes"))
     # a one-parameter alias (the form the crate documentation shows), and errors that cannot survive the integer convention
     ts.append(Trait("IrOneParam", [
         Method("i1_val", "ref", ["u64"], None, int_ret="ir_u64_one"),
@@ -527,6 +533,49 @@ pub fn int_result_slot_checks(rep: &mut gluert::Report) {
     }
 }
 
+// ---- by-value Option arguments of methods whose return value is wrapped (these go through the lifetime-recast copy of the vtable entry) ----
+#[cglue_trait]
+pub trait OptLeaf { fn leaf(&self) -> u64; }
+#[cglue_trait]
+pub trait OptPick {
+    #[wrap_with_obj(OptLeaf)]
+    type Picked: OptLeaf + 'static;
+    fn pick(&self, a: Option<u8>, b: Option<u16>, c: Option<bool>, d: Option<u64>) -> Self::Picked;
+    fn pick_mut(&mut self, a: Option<u16>, b: Option<u8>) -> Self::Picked;
+    fn plain(&self, a: Option<u8>) -> u64;
+}
+pub struct OptLeafImp(pub u64);
+impl OptLeaf for OptLeafImp { fn leaf(&self) -> u64 { self.0 } }
+pub struct OptPickImp;
+fn opt_code<T: Into<u64>>(o: Option<T>) -> u64 { match o { None => 0x1_0000_0000, Some(v) => v.into() } }
+impl OptPick for OptPickImp {
+    type Picked = OptLeafImp;
+    fn pick(&self, a: Option<u8>, b: Option<u16>, c: Option<bool>, d: Option<u64>) -> OptLeafImp { OptLeafImp(opt_code(a) ^ (opt_code(b) << 9) ^ (opt_code(c) << 27) ^ d.unwrap_or(0x55).rotate_left(40)) }
+    fn pick_mut(&mut self, a: Option<u16>, b: Option<u8>) -> OptLeafImp { OptLeafImp(opt_code(a) ^ (opt_code(b) << 17)) }
+    fn plain(&self, a: Option<u8>) -> u64 { opt_code(a) }
+}
+pub fn wrapped_return_arg_checks(rep: &mut gluert::Report) {
+    let a8 = [None, Some(0u8), Some(1), Some(7), Some(200), Some(255)];
+    let a16 = [None, Some(0u16), Some(1), Some(0x100), Some(0xffff)];
+    let ab = [None, Some(false), Some(true)];
+    let a64 = [None, Some(0u64), Some(u64::MAX)];
+    let mut direct = OptPickImp;
+    let mut obj = trait_obj!(OptPickImp as OptPick);
+    for a in a8 { for b in a16 { for c in ab { for d in a64 {
+        let want = direct.pick(a, b, c, d).0;
+        let got = obj.pick(a, b, c, d).leaf();
+        if got != want { rep.violation("GLUE:argument-altered", &format!("pick({:?}, {:?}, {:?}, {:?}) -> Self::Picked through an object: the implementor's digest of its arguments is {:#x}, a direct call gives {:#x}", a, b, c, d, got, want), "OptPick"); }
+        rep.add("wrapped_return_option_args", 1);
+    } } }
+        for b in a16 {
+            let want = direct.pick_mut(b, a).0;
+            let got = obj.pick_mut(b, a).leaf();
+            if got != want { rep.violation("GLUE:argument-altered", &format!("pick_mut({:?}, {:?}) through an object: digest {:#x}, direct {:#x}", b, a, got, want), "OptPick"); }
+        }
+        if obj.plain(a) != direct.plain(a) { rep.violation("GLUE:argument-altered", &format!("plain({:?}) through an object", a), "OptPick"); }
+    }
+}
+
 fn main() {
     let a: Vec<String> = std::env::args().collect();
     let seed: u64 = a.get(1).and_then(|s| s.parse().ok()).unwrap_or(1);
@@ -537,6 +586,7 @@ fn main() {
     let mut rep = gluert::Report::new();
     run_all(seed, nhist, maxlen, &only, &mut rep);
     if (only.is_empty() || only == "Ir") && !cfg!(miri) { int_result_slot_checks(&mut rep); }
+    if only.is_empty() && !cfg!(miri) { wrapped_return_arg_checks(&mut rep); }
     for v in vmon::alloc::violations() {
         rep.violation(&format!("GLUE:alloc:{}", v.kind), &format!("ptr={:#x} allocated(size={},align={}) freed-as(size={},align={})", v.ptr, v.alloc_size, v.alloc_align, v.free_size, v.free_align), "");
     }
